@@ -93,6 +93,7 @@ func childMain() int {
 		Out      string    `json:"out"`
 		RaceLog  string    `json:"race_log"`
 		Repeat   int       `json:"repeat"`
+		Root     string    `json:"root"` // data root inside the parent's scratch dir (removed by the parent)
 	}
 	if err := json.Unmarshal(b, &batch); err != nil {
 		fmt.Fprintln(os.Stderr, "child: cannot decode batch:", err)
@@ -109,7 +110,10 @@ func childMain() int {
 		out.Write(append(js, '\n'))
 		out.Sync()
 	}
-	r := rig.New(rig.Options{Patterns: linPatterns})
+	if batch.Root != "" {
+		os.MkdirAll(batch.Root, 0o755)
+	}
+	r := rig.New(rig.Options{Patterns: linPatterns, Root: batch.Root})
 	installPanicTap()
 	cli := r.Serve()
 	rep := batch.Repeat
@@ -171,7 +175,6 @@ func childMain() int {
 				emit(cr)
 				// the rig is unusable now: leave without cleanup (the parent removes the root)
 				fmt.Fprintln(os.Stderr, "child: stuck client, giving up; rig root:", r.Root)
-				os.RemoveAll(r.Root)
 				return 4
 			}
 			DestroySwamp(r, sn)
@@ -308,14 +311,27 @@ var (
 	reTreasureSave   = regexp.MustCompile(`^` + tMethods + `Save$`)
 	reTreasureReader = regexp.MustCompile(`^` + tMethods + `(Get|Is|Clone|cloneContent|ConvertToByte|CheckIfContentChanged|Uint32Slice(GetAll|Size))`)
 	// users of the live key map that beacon.GetAll hands out
-	reLiveMapUser  = regexp.MustCompile(`^(gateway\.Gateway\.GetAll|swamp\.\(\*swamp\)\.treasuresForBeacon|swamp\.\(\*swamp\)\.(GetAll|buildBeacon|CountMatchingTreasures)|beacon\.\(\*beacon\)\.PushManyFromMap)`)
-	reLiveMapStack = regexp.MustCompile(`gateway\.Gateway\.GetAll;|swamp\.\(\*swamp\)\.treasuresForBeacon;|swamp\.\(\*swamp\)\.buildBeacon;`)
-	reBeaconMapMut = regexp.MustCompile(`^beacon\.\(\*beacon\)\.(Add|Delete|PushManyFromMap|PushManyFromSlice|ShiftOne|ShiftMany|ShiftExpired|ShiftMatching|Reset|CloneUnorderedTreasures)`)
+	reLiveMapUser   = regexp.MustCompile(`^(gateway\.Gateway\.GetAll|swamp\.\(\*swamp\)\.treasuresForBeacon|swamp\.\(\*swamp\)\.(GetAll|buildBeacon|CountMatchingTreasures)|beacon\.\(\*beacon\)\.PushManyFromMap)`)
+	reFileNameDeref = regexp.MustCompile(`^swamp\.\(\*swamp\)\.(SaveFunction|deleteHandler)$`)
+	reLiveMapStack  = regexp.MustCompile(`gateway\.Gateway\.(GetAll|GetByIndex|GetByIndexStream);|swamp\.\(\*swamp\)\.(treasuresForBeacon|buildBeacon|GetTreasuresByBeacon|deleteTreasureFromBeacons|addTo\w+Beacon);|beacon\.\(\*beacon\)\.(Sort\w+|GetManyFromOrderPosition|PushManyFromMap|Delete)`)
+	reBeaconMapMut  = regexp.MustCompile(`^beacon\.\(\*beacon\)\.(Add|Delete|PushManyFromMap|PushManyFromSlice|ShiftOne|ShiftMany|ShiftExpired|ShiftMatching|Reset|CloneUnorderedTreasures)`)
 )
 
 // classifyPair returns the witness name of the recorded finding a race pair belongs to ("" = none).
 func classifyPair(p racePair) string {
 	if (reTreasureWriter.MatchString(p.A) && reTreasureReader.MatchString(p.B)) || (reTreasureWriter.MatchString(p.B) && reTreasureReader.MatchString(p.A)) {
+		return wSetGet
+	}
+	// the *string that GetFileName hands out (RLock only) points into memory written by
+	// BodySetFileName (no t.mu): the caller's dereference races with that write
+	if (p.A == "treasure.(*treasure).BodySetFileName" && reFileNameDeref.MatchString(p.B)) || (p.B == "treasure.(*treasure).BodySetFileName" && reFileNameDeref.MatchString(p.A)) {
+		return wSetGet
+	}
+	// the byte slice of a patched body is handed to readers by reference (GetContentByteArray
+	// returns the internal slice, published by SetContentByteArray without t.mu): whoever
+	// looks at the response bytes (here the harness decoding BytesVal, in production the
+	// protobuf marshaller) races with the writer that filled the slice
+	if (p.A == "swamp.wrapMsgpackBody" && strings.Contains(p.StackB, "lin.obsOf;")) || (p.B == "swamp.wrapMsgpackBody" && strings.Contains(p.StackA, "lin.obsOf;")) {
 		return wSetGet
 	}
 	if (reTreasureSave.MatchString(p.A) && reTreasureWriter.MatchString(p.B)) || (reTreasureSave.MatchString(p.B) && reTreasureWriter.MatchString(p.A)) {
@@ -326,10 +342,12 @@ func classifyPair(p racePair) string {
 	}
 	// a record reached through the live map (no lock => no happens-before with the goroutine
 	// that built it): the reader's access conflicts with the initialising write in treasure.New
-	if p.A == "treasure.New" && reLiveMapStack.MatchString(p.StackB) && !strings.Contains(p.StackA, "GetAll") {
+	// (index beacons filled from the live map by PushManyFromMap keep handing such records
+	// to later index reads, so every bulk / index read path can be the reader)
+	if p.A == "treasure.New" && strings.Contains(p.StackA, "CreateTreasure;") && reLiveMapStack.MatchString(p.StackB) {
 		return wGetAll
 	}
-	if p.B == "treasure.New" && reLiveMapStack.MatchString(p.StackA) && !strings.Contains(p.StackB, "GetAll") {
+	if p.B == "treasure.New" && strings.Contains(p.StackB, "CreateTreasure;") && reLiveMapStack.MatchString(p.StackA) {
 		return wGetAll
 	}
 	return ""
@@ -404,7 +422,9 @@ func runChild(bin, scratch string, id int, progs []Program, repeat int) batchOut
 	bf := filepath.Join(scratch, fmt.Sprintf("batch-%d.json", id))
 	of := filepath.Join(scratch, fmt.Sprintf("out-%d.jsonl", id))
 	rl := filepath.Join(scratch, fmt.Sprintf("race-%d", id))
-	js, _ := json.Marshal(map[string]any{"programs": progs, "out": of, "race_log": rl, "repeat": repeat})
+	root := filepath.Join(scratch, fmt.Sprintf("root-%d", id))
+	defer os.RemoveAll(root)
+	js, _ := json.Marshal(map[string]any{"programs": progs, "out": of, "race_log": rl, "repeat": repeat, "root": root})
 	os.WriteFile(bf, js, 0o644)
 	cmd := exec.Command(bin, "-test.run", "^$")
 	cmd.Env = append(os.Environ(), childEnv+"="+bf, "GORACE=halt_on_error=0 exitcode=0 log_path="+rl, "VERIF_STATS_OUT=")
@@ -643,7 +663,7 @@ func c10Campaign(t *testing.T, facet, rule string, gen func(*rapid.T) Program, n
 		}
 	}
 	if len(replays) > 0 {
-		runAll(replays, 20, "replays")
+		runAll(replays, 5, "replays")
 	}
 	runAll(progs, 1, "generated")
 
@@ -707,15 +727,28 @@ func c10Judge(t *testing.T, tot *c10Totals, rule string, chunk []Program, bo bat
 			// recorded setters-vs-getters finding (the getter re-reads t.treasure.Content
 			// after its nil check while a writer swaps / clears it)
 			allGetter := len(cr.PanicFrom) > 0 && len(cr.PanicFrom) >= cr.Panics && len(cr.Nil) <= cr.Panics
+			allLiveMap := allGetter
 			for _, o := range cr.PanicFrom {
 				if !reTreasureReader.MatchString(o) {
 					allGetter = false
+				}
+				// a nil record handed out by the iteration of the live key map while it is written
+				if o != "gateway.treasureToKeyValuePair" {
+					allLiveMap = false
+				}
+			}
+			for _, n := range cr.Nil {
+				if !strings.HasSuffix(n, " getall") {
+					allLiveMap = false
 				}
 			}
 			msg := fmt.Sprintf("%s: %d request(s) answered (nil, nil) %v and %d panic record(s) were logged (raised in %v): %s", cfgNames[cr.Config], len(cr.Nil), cr.Nil, cr.Panics, cr.PanicFrom, cr.PanicMsg)
 			if allGetter && pbt.Open("C10", wSetGet) {
 				tot.known[wSetGet]++
 				tot.knownDetail[wSetGet+"/panic"] = head(msg, 300)
+			} else if allLiveMap && pbt.Open("C10", wGetAll) {
+				tot.known[wGetAll]++
+				tot.knownDetail[wGetAll+"/panic"] = head(msg, 300)
 			} else {
 				violation("panic", msg, p, nil)
 			}
